@@ -50,6 +50,30 @@ var timeCalls = map[string]shim{
 	"Duration.Nanoseconds": {kind: "self", res: []string{"i64"}},
 }
 
+// bytes.Buffer (a value field of zapio.Writer) is a byte string
+var bytesBufferCalls = map[string]shim{
+	"BytesBuffer.Len":   {kind: "len"},
+	"BytesBuffer.Bytes": {kind: "self", res: []string{"bytes"}},
+	"BytesBuffer.Write": {kind: "mut", f: "append..."},
+	"BytesBuffer.Reset": {kind: "set", f: ".bytes []"},
+}
+
+var zioFields = map[string]fieldSpec{
+	"buff":  {"buff", "BytesBuffer"},
+	"Level": {"level", "i8"},
+	"#out":  {"out", "[]Msg"}, // pseudo-field: the messages handed to w.log, in order
+}
+
+func zioFunc(name string, extra map[string]shim) transFunc {
+	return transFunc{file: "zapio/writer.go", recv: "Writer", name: name, lean: name, fields: zioFields,
+		calls: merge(bytesBufferCalls, stdCalls, map[string]shim{
+			// w.Log.Core().Enabled(w.Level): the level check of the wrapped logger's core
+			"recv.Log.Core().Enabled": {kind: "ext", f: "Enabled", res: []string{"bool"}},
+			// w.log(b): Check + Write on the logger — the message reaches the core iff the level is enabled
+			"recv.log": {kind: "extfld", f: "log", flds: []string{"#out"}},
+		}, extra)}
+}
+
 var jsonEncFields = map[string]fieldSpec{
 	"buf":            {"buf", "Buffer"},
 	"spaced":         {"spaced", "bool"},
@@ -115,6 +139,12 @@ var transSpecs = []transSpec{
 				"WriteSyncer.Sync": {kind: "ext", f: "sink.Sync", res: []string{"error"}},
 				"multierr.Append":  {kind: "builtin", f: "append...", res: []string{"error"}},
 			}},
+	}},
+	{table: "TransZio", funcs: []transFunc{
+		zioFunc("flush", nil),
+		zioFunc("writeLine", map[string]shim{"recv.flush": {kind: "fun", f: "flush"}}),
+		zioFunc("Write", map[string]shim{"recv.writeLine": {kind: "fun", f: "writeLine", res: []string{"bytes"}}}),
+		zioFunc("Sync", map[string]shim{"recv.flush": {kind: "fun", f: "flush"}}),
 	}},
 	{table: "TransJsonSep", funcs: []transFunc{
 		{file: "zapcore/json_encoder.go", recv: "jsonEncoder", name: "addElementSeparator", lean: "addElementSeparator",
